@@ -14,6 +14,7 @@ import (
 	"github.com/go-logr/logr"
 	corev1 "k8s.io/api/core/v1"
 	metav1 "k8s.io/apimachinery/pkg/apis/meta/v1"
+	"k8s.io/apimachinery/pkg/api/equality"
 	"k8s.io/apimachinery/pkg/types"
 	clock "k8s.io/utils/clock/testing"
 	"sigs.k8s.io/controller-runtime/pkg/client"
@@ -87,6 +88,8 @@ type StepJ struct {
 	// NewNodeClaimTemplate + ToNodeClaim), the provider answers Create with these labels (PopulateNodeClaimDetails),
 	// `launched` says whether the launch completed
 	Labels [][2]string `json:"labels,omitempty"`
+	// create: the way the NodeClaim is built from the NodePool (see static.go): "" | "same" | "static" | "staticdrift"
+	Via string `json:"via,omitempty"`
 }
 
 type DriftIn struct {
@@ -119,6 +122,9 @@ type Snap struct {
 	HashNow     string      `json:"hashNow"` // Hash() of the stored NodePool
 	Claims      []ClaimSnap `json:"claims"`
 	Err         bool        `json:"err"`
+	// a create step: the NodePool object the NodeClaim was built from came out of it with a different spec / metadata
+	// (building a NodeClaim from a NodePool must leave the NodePool alone; the model never says true)
+	NPMutated bool `json:"npMutated,omitempty"`
 }
 
 // provider wraps the fake cloud provider to make IsDrifted fail on demand.
@@ -308,8 +314,14 @@ func implDrift(raw json.RawMessage) (any, error) {
 		return nil, err
 	}
 	out = append(out, s0)
-	for _, st := range in.Steps {
+	// state of a run of consecutive create steps: the NodeClaims a static-capacity controller wrote that no step has taken
+	// yet, and the in-memory NodePool object the previous create step built its NodeClaim from
+	var batch []*v1.NodeClaim
+	batchVia := ""
+	var lastNP *v1.NodePool
+	for si, st := range in.Steps {
 		stepErr := false
+		mutated, keepBatch, keepNP := false, false, false
 		// a step on a NodeClaim that was never created (its create step found no NodePool) does nothing
 		if st.Claim != "" && st.K != "create" {
 			known := false
@@ -424,44 +436,92 @@ func implDrift(raw json.RawMessage) (any, error) {
 				exists = exists || n == st.Claim
 			}
 			if err := c.Get(ctx, types.NamespacedName{Name: in.PoolName}, cur); err == nil && !exists {
-				// what the provisioner does for every NodePool of a scheduling pass, and for the NodeClaims it writes
-				nct := provsched.NewNodeClaimTemplate(cur)
-				nct.InstanceTypeOptions = cp.InstanceTypes
-				nc := nct.ToNodeClaim()
-				nc.GenerateName, nc.Name = "", st.Claim
-				nc.UID = types.UID("created-" + st.Claim)
-				nc.CreationTimestamp = metav1.NewTime(clk.Now())
-				if err := c.Create(ctx, nc); err != nil {
-					return nil, err
-				}
-				// the launch: the provider's answer carries its labels and leaves the annotations alone
-				retrieved := &v1.NodeClaim{ObjectMeta: metav1.ObjectMeta{Name: nc.Name, Labels: toMap(st.Labels), Annotations: nc.DeepCopy().Annotations},
-					Status: v1.NodeClaimStatus{ProviderID: "fake://" + nc.Name}}
-				if retrieved.Labels == nil {
-					retrieved.Labels = map[string]string{}
-				}
-				nc = lifecycle.PopulateNodeClaimDetails(nc, retrieved)
-				if err := c.Update(ctx, nc); err != nil {
-					return nil, err
-				}
-				nc.Status.ProviderID = retrieved.Status.ProviderID
-				if st.Launched {
-					nc.StatusConditions().SetTrue(v1.ConditionTypeLaunched)
+				var nc *v1.NodeClaim
+				if isBatchVia(st.Via) {
+					// the real static-capacity controllers: one run for the whole batch of consecutive create steps
+					if len(batch) == 0 || batchVia != st.Via {
+						k := 0
+						for j := si; j < len(in.Steps) && in.Steps[j].K == "create" && in.Steps[j].Via == st.Via; j++ {
+							k++
+						}
+						var err error
+						if batch, mutated, err = staticBatch(ctx, c, clk, cp, in.PoolName, st.Via, k); err != nil {
+							return nil, err
+						}
+						batchVia = st.Via
+					}
+					if len(batch) > 0 {
+						written := batch[0]
+						batch = batch[1:]
+						nc = &v1.NodeClaim{ObjectMeta: metav1.ObjectMeta{Labels: written.DeepCopy().Labels, Annotations: written.DeepCopy().Annotations,
+							OwnerReferences: written.OwnerReferences}, Spec: *written.Spec.DeepCopy()}
+						if err := c.Delete(ctx, written); err != nil {
+							return nil, err
+						}
+					}
+					keepBatch = true
 				} else {
-					nc.StatusConditions().SetUnknownWithReason(v1.ConditionTypeLaunched, "LaunchFailed", "injected")
+					// what the provisioner does for every NodePool of a scheduling pass, and for the NodeClaims it writes
+					if st.Via == viaSame && lastNP != nil {
+						cur = lastNP
+					}
+					handed := cur.DeepCopy()
+					nct := provsched.NewNodeClaimTemplate(cur)
+					nct.InstanceTypeOptions = cp.InstanceTypes
+					nc = nct.ToNodeClaim()
+					mutated = !equality.Semantic.DeepEqual(handed.Spec, cur.Spec) || !equality.Semantic.DeepEqual(handed.ObjectMeta, cur.ObjectMeta)
+					lastNP, keepNP = cur, true
 				}
-				if err := c.Status().Update(ctx, nc); err != nil {
-					return nil, err
+				if nc != nil {
+					nc.GenerateName, nc.Name = "", st.Claim
+					nc.UID = types.UID("created-" + st.Claim)
+					nc.CreationTimestamp = metav1.NewTime(clk.Now())
+					if err := c.Create(ctx, nc); err != nil {
+						return nil, err
+					}
+					// the launch: the provider's answer carries its labels and leaves the annotations alone
+					retrieved := &v1.NodeClaim{ObjectMeta: metav1.ObjectMeta{Name: nc.Name, Labels: toMap(st.Labels), Annotations: nc.DeepCopy().Annotations},
+						Status: v1.NodeClaimStatus{ProviderID: "fake://" + nc.Name}}
+					if retrieved.Labels == nil {
+						retrieved.Labels = map[string]string{}
+					}
+					nc = lifecycle.PopulateNodeClaimDetails(nc, retrieved)
+					if err := c.Update(ctx, nc); err != nil {
+						return nil, err
+					}
+					nc.Status.ProviderID = retrieved.Status.ProviderID
+					if st.Launched {
+						nc.StatusConditions().SetTrue(v1.ConditionTypeLaunched)
+					} else {
+						nc.StatusConditions().SetUnknownWithReason(v1.ConditionTypeLaunched, "LaunchFailed", "injected")
+					}
+					if err := c.Status().Update(ctx, nc); err != nil {
+						return nil, err
+					}
+					names = append(names, st.Claim)
 				}
-				names = append(names, st.Claim)
 			}
 		default:
 			return nil, fmt.Errorf("bad step %q", st.K)
+		}
+		if !keepBatch {
+			// NodeClaims of a batch that no step took (only after a create step that found its name in use) are removed: they
+			// would sit in the API unlaunched
+			for _, left := range batch {
+				if err := c.Delete(ctx, left); err != nil {
+					return nil, err
+				}
+			}
+			batch, batchVia = nil, ""
+		}
+		if !keepNP {
+			lastNP = nil
 		}
 		s, err := snapshot(stepErr)
 		if err != nil {
 			return nil, err
 		}
+		s.NPMutated = mutated
 		out = append(out, s)
 	}
 	return map[string]any{"snaps": out}, nil
@@ -810,13 +870,33 @@ func genDrift(r *rand.Rand, t core.Tier) any {
 		return StepJ{K: "create", Claim: n, Launched: r.Float64() < 0.93,
 			Labels: genProviderLabels(r, cur.Template.Requirements, r.Float64() < 0.85)}
 	}
-	afterCreate := func(n string) {
+	// 4 creations in 10 are a batch of 2-3 NodeClaims built from ONE in-memory NodePool object: NewNodeClaimTemplate called
+	// again on the object of the previous creation ("same"), the real static.provisioning controller filling the replicas
+	// of a static NodePool ("static"), or the real StaticDrift method building replacements ("staticdrift")
+	createBatch := func() []StepJ {
+		via, k := "", 1
+		if r.Float64() < 0.4 {
+			via, k = pick(r, []string{viaSame, viaStatic, viaStaticDrift}), 2+r.IntN(2)
+		}
+		sts := []StepJ{}
+		for j := 0; j < k; j++ {
+			st := create()
+			if via != viaSame || j > 0 {
+				st.Via = via
+			}
+			sts = append(sts, st)
+		}
+		return sts
+	}
+	afterCreate := func(sts []StepJ) {
 		if stale && r.Float64() >= 0.15 {
 			in.Steps = append(in.Steps, StepJ{K: "hashctl"})
 			stale = false
 		}
-		if r.Float64() < 0.7 {
-			in.Steps = append(in.Steps, StepJ{K: "reconcile", Claim: n})
+		for _, st := range sts {
+			if r.Float64() < 0.7 {
+				in.Steps = append(in.Steps, StepJ{K: "reconcile", Claim: st.Claim})
+			}
 		}
 	}
 	// the interleaving "the provisioner runs between a template edit and the hash controller": NodePool stamped ->
@@ -837,11 +917,11 @@ func genDrift(r *rand.Rand, t core.Tier) any {
 		apiNormalize(&nw)
 		cur = nw
 		in.Steps = append(in.Steps, StepJ{K: "editPool", Pool: &nw})
-		st := create()
-		in.Steps = append(in.Steps, st)
-		afterCreate(st.Claim)
+		sts := createBatch()
+		in.Steps = append(in.Steps, sts...)
+		afterCreate(sts)
 		if r.Float64() < 0.5 {
-			in.Steps = append(in.Steps, StepJ{K: "hashctl"}, StepJ{K: "reconcile", Claim: st.Claim})
+			in.Steps = append(in.Steps, StepJ{K: "hashctl"}, StepJ{K: "reconcile", Claim: sts[len(sts)-1].Claim})
 			stale = false
 		}
 	}
@@ -851,7 +931,10 @@ func genDrift(r *rand.Rand, t core.Tier) any {
 		case x < 0.27:
 			st = StepJ{K: "reconcile", Claim: claimName()}
 		case x < 0.34:
-			st = create()
+			sts := createBatch()
+			in.Steps = append(in.Steps, sts...)
+			afterCreate(sts)
+			continue
 		case x < 0.44:
 			st = StepJ{K: "hashctl"}
 			stale = false
@@ -917,10 +1000,6 @@ func genDrift(r *rand.Rand, t core.Tier) any {
 			st = StepJ{K: "deletePool"}
 		}
 		in.Steps = append(in.Steps, st)
-		if st.K == "create" {
-			afterCreate(st.Claim)
-			continue
-		}
 		if st.K != "reconcile" && st.K != "hashctl" && r.Float64() < 0.5 {
 			in.Steps = append(in.Steps, StepJ{K: "reconcile", Claim: claimName()})
 		}
@@ -947,11 +1026,24 @@ func driftFeatures(in *DriftIn, impl any) []string {
 	// in which state of the NodePool's annotation are NodeClaims created, and are they looked at afterwards
 	created := map[string]bool{}
 	prov := in.Prov
+	curPool := in.Pool
 	for i, st := range in.Steps {
 		if i >= len(snaps) {
 			break
 		}
 		pre, _ := snaps[i].(map[string]any)
+		if i > 0 && in.Steps[i-1].K == "editPool" && in.Steps[i-1].Pool != nil {
+			curPool = *in.Steps[i-1].Pool
+		}
+		if st.K == "create" {
+			l = append(l, "create:via-"+st.Via)
+			if i > 0 && in.Steps[i-1].K == "create" && st.Via != "" && st.Via == in.Steps[i-1].Via || st.Via == viaSame {
+				l = append(l, "create:further-claim-from-one-nodepool-object")
+				if curPool.Template.Labels != nil {
+					l = append(l, "create:further-claim-from-one-nodepool-object,template-has-labels")
+				}
+			}
+		}
 		if st.K == "prov" && st.Prov != nil {
 			prov = *st.Prov
 		}
@@ -1047,7 +1139,7 @@ func driftFeatures(in *DriftIn, impl any) []string {
 func driftOp() *core.Op {
 	return &core.Op{
 		Name: "c15.drift",
-		Doc:  "histories on the fake client: the real nodepool/hash controller and the real nodeclaim/disruption controller (drift sub-reconciler) between edits of the NodePool template/requirements, NodeClaim labels, hash / hash-version annotations, the Launched condition, provider answers (instance types, offerings — a quarter of them listed but currently unavailable, and steps in which only the availability changes —, IsDrifted, errors), the clock, and NodeClaims CREATED in mid-history from the NodePool as stored at that moment (real NewNodeClaimTemplate + ToNodeClaim + PopulateNodeClaimDetails), also between a template edit and the hash controller's next run; every object's labels, annotations and Drifted condition after every step vs the Lean model, and the drift specification evaluated on what the real code did (a created NodeClaim carries the hash of the template it was created from, and is not reported Drifted for its hash unless the template changed afterwards)",
+		Doc:  "histories on the fake client: the real nodepool/hash controller and the real nodeclaim/disruption controller (drift sub-reconciler) between edits of the NodePool template/requirements, NodeClaim labels, hash / hash-version annotations, the Launched condition, provider answers (instance types, offerings — a quarter of them listed but currently unavailable, and steps in which only the availability changes —, IsDrifted, errors), the clock, and NodeClaims CREATED in mid-history from the NodePool as stored at that moment (real NewNodeClaimTemplate + ToNodeClaim + PopulateNodeClaimDetails), also between a template edit and the hash controller's next run; four creations in ten are a batch of 2-3 NodeClaims built from ONE in-memory NodePool object (NewNodeClaimTemplate again on the same object / the real static.provisioning controller filling replicas / the real StaticDrift.ComputeCommands building replacements, both writing through Provisioner.CreateNodeClaims; the NodePool object must come out unchanged); every object's labels, annotations and Drifted condition after every step vs the Lean model, and the drift specification evaluated on what the real code did (a created NodeClaim carries the hash of the template it was created from, and is not reported Drifted for its hash unless the template changed afterwards)",
 		N: func(t core.Tier) int {
 			if t == core.Thorough {
 				return 20000
